@@ -16,7 +16,7 @@ PROPS = {
     "C01": dict(profile="C01", checked=["latest"], gen=["pt", "rk", "mt", "ig"], itercls="pos",
                 quick_cfgs=["default", "flushy", "manual", "bigvals", "oldfmv", "nolazy"]),
     "C02": dict(profile="C02", checked=["pos"], gen=["pt", "rk", "it", "it", "mt"], itercls="pos", masks=True,
-                quick_cfgs=["default", "flushy", "manual", "nolazy", "valsep"]),
+                quick_cfgs=["default", "flushy", "manual", "nolazy", "valsep", "bigvals"]),
     "C03": dict(profile="C03", checked=["snap"], gen=["pt", "rk", "mt", "sn", "ig"], itercls="snap",
                 quick_cfgs=["default", "flushy", "flushy2", "manual", "valsep", "oldfmv"]),
     "C04": dict(profile="C04", checked=["view"], gen=["pt", "rk", "mt", "it", "ig"], itercls="view",
@@ -26,7 +26,7 @@ PROPS = {
     "C08": dict(profile="C08", checked=["rk"], gen=["rk", "rk", "pt", "it", "mt"], itercls="rk",
                 quick_cfgs=["default", "flushy", "flushy2", "manual", "nolazy", "oldfmv"]),
     "C09": dict(profile="C09", checked=["mask"], gen=["rk", "pt", "it", "it", "mt"], itercls="mask", masks=True,
-                quick_cfgs=["default", "flushy", "flushy2", "manual", "nolazy"]),
+                quick_cfgs=["default", "flushy", "flushy2", "manual", "nolazy", "bigvals"]),
     "C14": dict(profile="C14", checked=["latest", "snap", "view", "efos"], gen=["pt", "rk", "mt", "mt", "sn", "it"], itercls="view",
                 quick_cfgs=["flushy", "flushy2", "manual", "valsep", "bigvals", "oldfmv"]),
     "C36": dict(profile="C36", checked=["latest", "view"], gen=["ig", "ig", "pt", "rk", "it", "mt"], itercls="view",
@@ -199,7 +199,8 @@ def binding_demo(run, files, checked):
         if not done_corrupt:
             byop = {"ckpt": "checkpoint", "scanint": "scanint", "reopen": "cleanreopen"}
             ops = [byop[c] for c in checked if c in byop]
-            idx = [i for i, l in enumerate(lines) if ('"cls":"' in l and json.loads(l).get("cls") in checked and json.loads(l).get("op") in ("get", "scan", "iter"))
+            idx = [i for i, l in enumerate(lines) if ('"cls":"' in l and json.loads(l).get("cls") in checked and json.loads(l).get("op") in ("get", "scan", "iter")
+                                                       and '"st":' not in l)   # (a paused limited step carries no result to corrupt)
                    or json.loads(l).get("op") in ops]
             if idx:
                 i = idx[len(idx) // 2]
